@@ -31,7 +31,9 @@ def main():
     if r.returncode:
         print(r.stdout)
         return 2
-    outd = os.path.join(ROOT, "findings", "pinned")
+    # witnesses against the pinned commit go to findings/pinned/, against any other commit (e.g. the parent of a later
+    # fix: commit) to findings/<commit>/
+    outd = os.path.join(ROOT, "findings", "pinned" if commit == "540a16b" else commit)
     os.makedirs(outd, exist_ok=True)
     try:
         for c in checks:
